@@ -102,6 +102,15 @@ func c11Case(r *core.Run, idx int, rng *rand.Rand) {
 		c := randEp(rng, used, n)
 		eps[n] = c
 	}
+	// now and then the configured paths nest or share a prefix (each is still a route of its own)
+	if rng.Intn(5) == 0 {
+		base := "/" + plainString(rng, 3)
+		layouts := [][]string{{base, base + "/logout", base + "/attributes", base + "/login", base + "/cert"}, {base, base + "_logout", base + "_attr", base + "_login", base + "_cert"}, {base + "/", base + "/x", base + "/x/y", base + "/x/y/z", base + "/x/y/z/c"}}
+		l := layouts[rng.Intn(len(layouts))]
+		for i, n := range []string{"sso", "slo", "attr", "cb", "cert"} {
+			eps[n] = epConf{Mode: "path", Path: l[i]}
+		}
+	}
 	if eps["meta"].Mode == "url" { // the entity ID may be any URL; keep it path-configured half of the time
 		if rng.Intn(2) == 0 {
 			m := eps["meta"]
@@ -324,6 +333,29 @@ func c11Case(r *core.Run, idx int, rng *rand.Rand) {
 		sc.Host = ""
 		sc.install(e.W)
 		cc := e.Do(env.Req{Path: eps["cb"].route("login"), Query: "id=" + url.QueryEscape(sc.S.ID), Host: reqHost, Headers: hdr})
+		// failure replies of the callback carry the same Issuer (unknown id, pending request, failing lookup)
+		pend := randScenario(rng, fmt.Sprintf("MK%dh%dpx", idx, hi), false)
+		pend.Host, pend.Done = "", false
+		pend.install(e.W)
+		for _, probe := range []struct{ what, id, failing string }{{"unknown id", "MKnobody" + randHex(rng, 4), ""}, {"pending request", pend.S.ID, ""}, {"failing request lookup", pend.S.ID, "AuthRequestByID"}, {"failing user lookup", sc.S.ID, "SetUserinfoWithUserID"}} {
+			if probe.failing != "" {
+				failing := probe.failing
+				e.W.Plan = func(tag, op string, occ int) string {
+					if op == failing {
+						return sim.FaultError
+					}
+					return ""
+				}
+			}
+			fc := e.Do(env.Req{Path: eps["cb"].route("login"), Query: "id=" + url.QueryEscape(probe.id), Host: reqHost, Headers: hdr})
+			e.W.Plan = nil
+			if fc.Panic == "" && fc.D.Msg != nil && !fc.D.Success() {
+				r.Count("issuer_checked_failed_callback", 1)
+				if fc.D.Msg.Issuer != mv.EntityID {
+					viol(fc, "issuer_of_failed_callback", fmt.Sprintf("Issuer %q of the callback's failure response (%s), entityID %q", fc.D.Msg.Issuer, probe.what, mv.EntityID))
+				}
+			}
+		}
 		if !cc.D.Success() {
 			viol(cc, "callback_route", fmt.Sprintf("callback at route %q did not produce a Success response (status %d kind %s)", eps["cb"].route("login"), cc.D.Status, cc.D.Kind))
 		} else {
